@@ -112,7 +112,9 @@ pub fn gen_msg(r: &mut Rng) -> M {
                 sid: r.u32b(), init_cwnd: r.u32b(), mss: r.u32b(), src_ip: r.u32b(),
                 src_port: r.u32b(), dst_ip: r.u32b(), dst_port: r.u32b(),
                 cong_alg: if nl == 0 { None } else if r.chance(1, 6) {
-                    Some((*r.pick(&["tcp_cubic", "tcp_reno", "tcp_bbr", "tcp_", "tcp", "TCP_vegas", "ccp_cubic", "cubic ", " reno", "reno\n", "Reno", "RENO", "réno"])).to_string())
+                    Some((*r.pick(&["tcp_cubic", "tcp_reno", "tcp_bbr", "tcp_", "tcp", "TCP_vegas", "ccp_cubic", "cubic ", " reno", "reno\n", "Reno", "RENO", "réno",
+                        // code points a decoder might single out: the replacement character, a byte-order mark, a control, the last one
+                        "re\u{fffd}no", "\u{fffd}", "\u{feff}reno", "reno\u{7f}", "\u{10ffff}", "reno\u{200b}", "𝛼β窓"])).to_string())
                 } else { Some(gen_name(r, nl)) },
             })
         }
